@@ -17,6 +17,9 @@ fn main() {
             "condvar/oneshot wake-up paths (sync.rs, tokio.rs) are only exercised by E7, i.e. sampled",
         ],
         |s| {
+            // the channel promises never to block its callers: a case that does not return is a violation
+            s.hang_is_violation(120);
+            s.require("self-reported-metrics", 2000);
         s.require("flush-while-in-batch", 2000);
         s.require("flush-during-retry-wait", 500);
         s.require("flush-with-pending", 2000);
